@@ -102,7 +102,17 @@ class Path:
         self.value = value
 
 
-def explore_paths(make_interp, fn, max_paths=512):
+def generic_zero_tests(interp, node, cond):
+    """policy for explore_paths: order comparisons are explored both ways; equality / truth tests of data get their generic outcome
+    (their special outcome is analysed by the scenario mechanism on consistently specialised inputs)"""
+    why = getattr(cond, "why", None)
+    if isinstance(why, tuple) and why and why[0] in ("eq", "ne", "truth", "any", "all", "not", "and", "or"):
+        from qstatic.scenario import default_choice
+        return default_choice(interp, node, cond)
+    return None
+
+
+def explore_paths(make_interp, fn, max_paths=512, policy=None):
     """Enumerate every resolution of the UNKNOWN conditions met by fn(interp).  make_interp(chooser) -> interp.
     Returns a list of Path with the condition objects (`why` of the UNKNOWN) and the outcome chosen."""
     paths = []
@@ -118,7 +128,7 @@ def explore_paths(make_interp, fn, max_paths=512):
             return r
         return fn(make_interp(ch))
 
-    pe = PathExplorer(max_paths=max_paths)
+    pe = PathExplorer(policy=policy, max_paths=max_paths)
     res = pe.explore(wrapped)
     for (taken, (st, val)), conds in zip(res, snaps):
         paths.append(Path(conds, st, val))
